@@ -50,7 +50,7 @@ CAP_POOL = [
     (1, bytes([0, 1, 0, 1])), (1, bytes([0, 2, 0, 1])), (1, bytes([0, 1, 0, 128])), (1, bytes([0, 25, 0, 70])),
     (2, b''), (128, b''), (64, b''), (64, bytes([0x40, 0x78])), (131, b''), (70, b''),
     (65, struct.pack('!I', 65002)), (65, struct.pack('!I', 4200000000)),
-    (69, bytes([0, 1, 1, 3])), (69, bytes([0, 1, 1, 1, 0, 2, 1, 2])),
+    (69, bytes([0, 1, 1, 3])), (69, bytes([0, 1, 1, 1, 0, 2, 1, 2])), (69, bytes([0, 2, 1, 3])),
     (71, bytes([0, 1, 1, 0, 0, 0, 10])), (5, bytes([0, 1, 0, 1, 0, 2])),
     (3, b''), (66, bytes([1, 2, 3])), (73, bytes([4]) + b'host' + bytes([0])), (255, b'\x00' * 40), (0, b''),
 ]
@@ -152,6 +152,20 @@ def run(seed, tier, driver):
         if not (one == two == each):
             res.fail('C15', 'OPEN capabilities: grouping into optional parameters changes the decoding',
                      {'caps': [[c, b.hex()] for c, b in caps], 'cut': cut, 'decoded': [one, two, each]}, key='capabilities')
+        # the list-valued capabilities (address families, ADD-PATH entries) of a‖b are those of a followed by those of b
+        da, db = I.open_parse(open_body([caps[:cut]])), I.open_parse(open_body([caps[cut:]]))
+        if 'ok' in one and 'ok' in da and 'ok' in db:
+            ca, cb, cab = (dict(x['ok']['capabilities']) for x in (da, db, one))
+            for key in set(ca) | set(cb) | set(cab):
+                vals = [c.get(key) for c in (ca, cb, cab)]
+                if key in ('afi_safi', 'add_path'):
+                    if (vals[0] or []) + (vals[1] or []) != (vals[2] or []):
+                        res.fail('C15', 'OPEN capabilities: the %s entries of a‖b are not those of a followed by those of b' % key,
+                                 {'caps': [[c, b_.hex()] for c, b_ in caps], 'cut': cut, 'decoded': [da, db, one]}, key='capabilities-concat')
+                        break
+            if set(cab) != set(ca) | set(cb):
+                res.fail('C15', 'OPEN capabilities: the capabilities decoded from a‖b are not the union of those of a and of b',
+                         {'caps': [[c, b_.hex()] for c, b_ in caps], 'cut': cut, 'decoded': [da, db, one]}, key='capabilities-concat')
         # an unknown capability between known ones changes nothing for the others
         known = [c for c in caps if c[0] in KNOWN_CAPS]
         base = I.open_parse(open_body([known]))
